@@ -88,6 +88,12 @@ FORMS = {
     'EMIT': (I + 'tezos.py', 'EmitInstruction'),
     # phase B (first half)
     'PACK': (I + 'generic.py', 'PackInstruction'),
+    # extension 3, phase 1
+    'UNPACK': (I + 'generic.py', 'UnpackInstruction'),
+    # phase 3
+    'CHECK_SIGNATURE': (I + 'crypto.py', 'CheckSignatureInstruction'),
+    # phase 2
+    'EMPTY_BIG_MAP': (I + 'struct.py', 'EmptyBigMapInstruction'),
 }
 
 # module-level helper functions the instruction classes call: digest key -> (file, function)
@@ -97,6 +103,9 @@ HELPERS = {
     'compare': (I + 'compare.py', 'compare'), 'execute_zero_compare': (I + 'compare.py', 'execute_zero_compare'),
     'execute_hash': (I + 'crypto.py', 'execute_hash'), 'dispatch_types': (I + 'base.py', 'dispatch_types'),
     'get_entrypoint_type': (I + 'tezos.py', 'get_entrypoint_type'),
+    # extension 3: how `from_micheline_value` takes an expression apart
+    'parse_micheline_value': ('michelson/micheline.py', 'parse_micheline_value'),
+    'parse_micheline_literal': ('michelson/micheline.py', 'parse_micheline_literal'),
 }
 
 # methods: digest key -> (file, class, method)
@@ -121,6 +130,21 @@ METHODS = {
     'MichelsonType.pack': ('michelson/types/base.py', 'MichelsonType', 'pack'),
     'PairType.to_micheline_value': ('michelson/types/pair.py', 'PairType', 'to_micheline_value'),
     'MapType.to_micheline_value': ('michelson/types/map.py', 'MapType', 'to_micheline_value'),
+    # extension 3, phase 1: what UNPACK calls (`unforge_micheline` itself is property C05's mirror)
+    'MichelsonType.unpack': ('michelson/types/base.py', 'MichelsonType', 'unpack'),
+    **{f'{c}.from_micheline_value': (f'michelson/types/{f}.py', c, 'from_micheline_value')
+       for c, f in (('UnitType', 'core'), ('BoolType', 'core'), ('IntType', 'core'), ('NatType', 'core'), ('StringType', 'core'),
+                    ('BytesType', 'core'), ('TimestampType', 'domain'), ('PairType', 'pair'), ('OptionType', 'option'),
+                    ('OrType', 'sum'), ('ListType', 'list'), ('SetType', 'set'), ('MapType', 'map'))},
+    'MapType.parse_micheline_value': ('michelson/types/map.py', 'MapType', 'parse_micheline_value'),
+    'SetType.check_constraints': ('michelson/types/set.py', 'SetType', 'check_constraints'),
+    'MapType.check_constraints': ('michelson/types/map.py', 'MapType', 'check_constraints'),
+    'StringType.from_value': ('michelson/types/core.py', 'StringType', 'from_value'),
+    # phase 2: a big map created in the run (what its lookups do when the context holds nothing for it)
+    **{f'BigMapType.{m}': ('michelson/types/big_map.py', 'BigMapType', m) for m in ('empty', '__iter__', 'attach_context', 'get', 'update')},
+    'MapType.contains': ('michelson/types/map.py', 'MapType', 'contains'),
+    'ExecutionContext.get_tmp_big_map_id': ('context/impl.py', 'ExecutionContext', 'get_tmp_big_map_id'),
+    'ExecutionContext.get_big_map_value': ('context/impl.py', 'ExecutionContext', 'get_big_map_value'),
 }
 
 TYPE_PRIMS = {  # runtime class -> prim, re-read from the class keyword `prim=` below
@@ -1774,6 +1798,290 @@ def to_micheline_value(self, mode='readable', lazy_diff=False):
     'MapType.to_micheline_value': '''
 def to_micheline_value(self, mode='readable', lazy_diff=False):
     return [{'prim': 'Elt', 'args': [x.to_micheline_value(mode=mode, lazy_diff=lazy_diff) for x in elt]} for elt in self]
+''',
+    # extension 3, phase 1: UNPACK (the repaired bodies: C01-5 annotations, C01-6 n-ary Pair, C01-7 printable strings)
+    'UNPACK': '''
+@classmethod
+def execute(cls, stack, stdout, context):
+    a = stack.pop1()
+    a.assert_type_equal(BytesType)
+    try:
+        some = cls.args[0].unpack(bytes(a))
+        res = OptionType.from_some(some)
+    except Exception as e:
+        res = OptionType.none(cls.args[0])
+    stack.push(res)
+    return cls(stack_items_added=1)
+''',
+    'parse_micheline_value': '''
+def parse_micheline_value(val_expr, handlers):
+    assert isinstance(val_expr, dict)
+    prim, args = (val_expr.get('prim'), val_expr.get('args', []))
+    assert not val_expr.get('annots')
+    expected = ' or '.join(map(lambda x: f'{x[0]} ({x[1]} args)', handlers))
+    assert (prim, len(args)) in handlers
+    handler = handlers[prim, len(args)]
+    return handler(args)
+''',
+    'parse_micheline_literal': '''
+def parse_micheline_literal(val_expr, handlers):
+    assert isinstance(val_expr, dict)
+    try:
+        core_type, value = next(((k, v) for k, v in val_expr.items() if k[0] != '_' and k != 'annots'))
+    except StopIteration as e:
+        raise Exception(f"Can't parse literal `{val_expr}`") from e
+    expected = ' or '.join(map(lambda x: f'`{x}`', handlers))
+    if core_type not in handlers:
+        raise Exception(f'Expected one of {expected}, got {core_type}')
+    handler = handlers[core_type]
+    return handler(value)
+''',
+    'MichelsonType.unpack': '''
+@classmethod
+def unpack(cls, data):
+    assert cls.is_packable()
+    assert data.startswith(b'\\x05')
+    val_expr = unforge_micheline(data[1:])
+    return cls.from_micheline_value(val_expr)
+''',
+    'UnitType.from_micheline_value': '''
+@classmethod
+def from_micheline_value(cls, val_expr):
+    parse_micheline_value(val_expr, {('Unit', 0): lambda x: x})
+    return cls()
+''',
+    'BoolType.from_micheline_value': '''
+@classmethod
+def from_micheline_value(cls, val_expr):
+    value = parse_micheline_value(val_expr, {('False', 0): lambda x: False, ('True', 0): lambda x: True})
+    return cls(value)
+''',
+    'IntType.from_micheline_value': '''
+@classmethod
+def from_micheline_value(cls, val_expr):
+    value = parse_micheline_literal(val_expr, {'int': int})
+    return cls(value)
+''',
+    'NatType.from_micheline_value': '''
+@classmethod
+def from_micheline_value(cls, val_expr):
+    value = parse_micheline_literal(val_expr, {'int': int})
+    return cls.from_value(value)
+''',
+    'StringType.from_micheline_value': '''
+@classmethod
+def from_micheline_value(cls, val_expr):
+    value = parse_micheline_literal(val_expr, {'string': str})
+    return cls.from_value(value)
+''',
+    'BytesType.from_micheline_value': '''
+@classmethod
+def from_micheline_value(cls, val_expr):
+    value = parse_micheline_literal(val_expr, {'bytes': bytes.fromhex})
+    return cls(value)
+''',
+    'TimestampType.from_micheline_value': '''
+@classmethod
+def from_micheline_value(cls, val_expr):
+    value = parse_micheline_literal(val_expr, {'int': int, 'string': optimize_timestamp})
+    return cls.from_value(value)
+''',
+    'PairType.from_micheline_value': '''
+@classmethod
+def from_micheline_value(cls, val_expr):
+    if isinstance(val_expr, dict):
+        prim, args = (val_expr.get('prim'), val_expr.get('args', []))
+        assert prim == 'Pair'
+        assert not val_expr.get('annots')
+    elif isinstance(val_expr, list):
+        args = val_expr
+    else:
+        raise AssertionError(f'either dict(prim) or list expected, got {type(val_expr).__name__}')
+    if len(args) == 2:
+        value = tuple((cls.args[i].from_micheline_value(arg) for i, arg in enumerate(args)))
+    elif len(args) > 2:
+        assert issubclass(cls.args[1], PairType)
+        value = (cls.args[0].from_micheline_value(args[0]), cls.args[1].from_micheline_value(args[1:]))
+    else:
+        raise AssertionError(f'at least two args expected, got {len(args)}')
+    return cls(value)
+''',
+    'OptionType.from_micheline_value': '''
+@classmethod
+def from_micheline_value(cls, val_expr):
+    item = parse_micheline_value(val_expr, {('Some', 1): lambda x: cls.args[0].from_micheline_value(x[0]), ('None', 0): lambda x: None})
+    return cls(item)
+''',
+    'OrType.from_micheline_value': '''
+@classmethod
+def from_micheline_value(cls, val_expr):
+    value = parse_micheline_value(val_expr, {('Left', 1): lambda x: (cls.args[0].from_micheline_value(x[0]), Undefined), ('Right', 1): lambda x: (Undefined, cls.args[1].from_micheline_value(x[0]))})
+    return cls(value)
+''',
+    'ListType.from_micheline_value': '''
+@classmethod
+def from_micheline_value(cls, val_expr):
+    assert isinstance(val_expr, list)
+    items = list(map(cls.args[0].from_micheline_value, val_expr))
+    return cls(items)
+''',
+    'SetType.from_micheline_value': '''
+@classmethod
+def from_micheline_value(cls, val_expr):
+    assert isinstance(val_expr, list)
+    items = list(map(cls.args[0].from_micheline_value, val_expr))
+    cls.check_constraints(items)
+    return cls(items)
+''',
+    'MapType.from_micheline_value': '''
+@classmethod
+def from_micheline_value(cls, val_expr):
+    return cls(cls.parse_micheline_value(val_expr))
+''',
+    'MapType.parse_micheline_value': '''
+@classmethod
+def parse_micheline_value(cls, val_expr):
+    assert isinstance(val_expr, list)
+
+    def parse_elt(elt_expr):
+        return parse_micheline_value(elt_expr, {('Elt', 2): lambda x: tuple((cls.args[i].from_micheline_value(arg) for i, arg in enumerate(x)))})
+    items = list(map(parse_elt, val_expr))
+    cls.check_constraints(items)
+    return items
+''',
+    'SetType.check_constraints': '''
+@classmethod
+def check_constraints(cls, items):
+    assert len(set(items)) == len(items)
+    assert items == sorted(items)
+''',
+    'MapType.check_constraints': '''
+@classmethod
+def check_constraints(cls, items):
+    keys = list(map(lambda x: x[0], items))
+    assert len(set(keys)) == len(keys)
+    assert keys == sorted(keys)
+''',
+    'StringType.from_value': '''
+@classmethod
+def from_value(cls, value):
+    assert isinstance(value, str)
+    assert len(value) == len(value.encode())
+    assert all((c == '\\n' or ' ' <= c <= '~' for c in value))
+    return cls(value)
+''',
+    # phase 3
+    'CHECK_SIGNATURE': '''
+@classmethod
+def execute(cls, stack, stdout, context):
+    pk, sig, msg = stack.pop3()
+    pk.assert_type_equal(KeyType)
+    sig.assert_type_equal(SignatureType)
+    msg.assert_type_equal(BytesType)
+    key = Key.from_encoded_key(str(pk))
+    try:
+        key.verify(signature=str(sig), message=bytes(msg))
+    except ValueError:
+        res = BoolType(False)
+    else:
+        res = BoolType(True)
+    stack.push(res)
+    return cls(stack_items_added=1)
+''',
+    # phase 2
+    'EMPTY_BIG_MAP': '''
+@classmethod
+def execute(cls, stack, stdout, context):
+    res = BigMapType.empty(key_type=cls.args[0], val_type=cls.args[1])
+    res.attach_context(context)
+    stack.push(res)
+    return cls(stack_items_added=1)
+''',
+    'BigMapType.empty': '''
+@staticmethod
+def empty(key_type, val_type):
+    cls = BigMapType.create_type(args=[key_type, val_type])
+    return cls(items=[])
+''',
+    'BigMapType.__iter__': '''
+def __iter__(self):
+    yield from iter(self.items)
+    for key in self.removed_keys:
+        yield (key, None)
+''',
+    'BigMapType.attach_context': '''
+def attach_context(self, context, big_map_copy=False):
+    assert self.context is None
+    self.context = context
+    if self.ptr is None:
+        self.ptr = context.get_tmp_big_map_id()
+    else:
+        self.ptr = context.register_big_map(self.ptr, copy=big_map_copy)
+    if context.tzt:
+        context.tzt_big_maps[self.ptr] = self
+''',
+    'BigMapType.get': '''
+def get(self, key, dup=True):
+    self.args[0].assert_type_equal(type(key))
+    if dup:
+        assert self.args[1].is_duplicable()
+    val = next((v for k, v in self if k == key), Undefined)
+    if val is Undefined:
+        assert self.context
+        key_hash = forge_script_expr(key.pack(legacy=True))
+        val_expr = self.context.get_big_map_value(self.ptr, key_hash)
+        if val_expr is None:
+            return None
+        else:
+            return self.args[1].from_micheline_value(val_expr)
+    else:
+        return val
+''',
+    'BigMapType.update': '''
+def update(self, key, val):
+    removed_keys = set(self.removed_keys)
+    prev_val = self.get(key, dup=False)
+    if prev_val is not None:
+        if val is not None:
+            if any((k == key for k, _ in self.items)):
+                items = [(k, v if k != key else val) for k, v in self.items]
+            else:
+                items = sorted(self.items + [(key, val)], key=lambda x: x[0])
+        else:
+            items = [(k, v) for k, v in self.items if k != key]
+            removed_keys.add(key)
+    elif val is not None:
+        items = sorted(self.items + [(key, val)], key=lambda x: x[0])
+        if key in removed_keys:
+            removed_keys.remove(key)
+    else:
+        items = self.items
+    res = type(self)(items=items, ptr=self.ptr, removed_keys=list(removed_keys))
+    res.context = self.context
+    return (prev_val, res)
+''',
+    'MapType.contains': '''
+def contains(self, key):
+    return self.get(key, dup=False) is not None
+''',
+    'ExecutionContext.get_tmp_big_map_id': '''
+def get_tmp_big_map_id(self):
+    self.tmp_big_map_index += 1
+    return -self.tmp_big_map_index
+''',
+    'ExecutionContext.get_big_map_value': '''
+def get_big_map_value(self, ptr, key_hash):
+    if self.tzt or ptr not in self.big_maps:
+        return None
+    ptr, _ = self.big_maps[ptr]
+    if ptr < 0:
+        return None
+    if self.shell is None:
+        raise ValueError(f'Shell is undefined, cannot connect to network')
+    try:
+        return self.shell.blocks[self.block_id].context.big_maps[ptr][key_hash]()
+    except RpcError:
+        return None
 ''',
 }
 
